@@ -20,37 +20,8 @@
 #include <string>
 #include <unistd.h>
 #include "hexsim.hpp"
+#include "safe.hpp"
 
-typedef uint32_t u32;
-static const u32 MEMW = 200000;
-
-struct Safe { bool ok; bool mm; u32 addr; bool svc; };
-// Is it safe (no out-of-array access in hexsim) to execute the next instruction?
-static Safe next_safe(const u32 *mem, u32 pc, u32 a, u32 b, u32 o) {
-  Safe s{false, false, 0, false};
-  if ((pc >> 2) >= MEMW) return s;
-  u32 ins = (mem[pc >> 2] >> ((pc & 3) << 3)) & 0xFF;
-  u32 o1 = o | (ins & 15);
-  switch (ins >> 4) {
-    case 0: case 1: case 2: s.mm = true; s.addr = o1; break;
-    case 6: s.mm = true; s.addr = a + o1; break;
-    case 7: case 8: s.mm = true; s.addr = b + o1; break;
-    case 13:
-      if (o1 == 3) {
-        s.svc = true;
-        u32 sp = mem[1];
-        // widest slot used by any call is sp+3; sp+1 for read
-        if (a == 0) { if (sp + 2 >= MEMW) return s; }
-        else if (a == 1) { if (sp + 2 >= MEMW || sp + 3 >= MEMW) return s; }
-        else if (a == 2) { if (sp + 2 >= MEMW || sp + 1 >= MEMW) return s; }
-      }
-      break;
-    default: break;
-  }
-  if (s.mm && s.addr >= MEMW) return s;
-  s.ok = true;
-  return s;
-}
 
 static void jarr(FILE *f, const std::vector<std::pair<u32, u32>> &v) {
   fputc('[', f);
